@@ -357,7 +357,14 @@ func (s *Store) CopyTo(dstFile StoreFile, flushEvery int) (res *Store, err error
 		numItems := 0
 		var errCopyItem error
 		err = srcColl.VisitItemsAscendEx(minItem.Key, true, func(i *Item, depth uint64) bool {
-			if errCopyItem = dstColl.SetItem(i); errCopyItem != nil {
+			// The destination gets its own copy: an item handed to a visitor is only
+			// valid during the call (the source may evict, release and recycle it).
+			ci := &Item{
+				Key:      append(make([]byte, 0, len(i.Key)), i.Key...),
+				Val:      append(make([]byte, 0, len(i.Val)), i.Val...),
+				Priority: i.Priority,
+			}
+			if errCopyItem = dstColl.SetItem(ci); errCopyItem != nil {
 				return false
 			}
 			numItems++
